@@ -744,6 +744,8 @@ type Summarizer struct {
 	TraceMap func(call ssa.CallInstruction, st *PState, calleeTrace string) string
 	// EdgeFilter is installed on every explorer created by the summarizer.
 	EdgeFilter func(from, to *ssa.BasicBlock, st *PState) bool
+	// OnEdge is installed on every explorer created by the summarizer.
+	OnEdge func(from, to *ssa.BasicBlock, st *PState)
 	// ClearFlagsOnReturn drops the (function-local) flags from return outcomes.
 	ClearFlagsOnReturn bool
 
@@ -853,6 +855,7 @@ func (s *Summarizer) Explorer(fn *ssa.Function) *Explorer {
 		ex.OnInstr = func(in ssa.Instruction, st *PState) bool { return s.OnInstr(fn, in, st) }
 	}
 	ex.EdgeFilter = s.EdgeFilter
+	ex.OnEdge = s.OnEdge
 	ex.LookupOutcomes = s.LookupOutcomes
 	return ex
 }
